@@ -275,26 +275,51 @@ Proof.
   - intros [H1 [x [H2 H3]]]. split; [exact H1|]. rewrite H2. exact H3.
 Qed.
 
-Lemma index_ok_inv s key q : BaseInv s -> PropsLive s -> IdxInv s -> has_float_special q = false ->
+Lemma NoDup_scan_by_prop s key q : BaseInv s -> NoDup (scan_by_prop s key q).
+Proof.
+  intros B. unfold scan_by_prop. apply NoDup_filter. unfold node_ids. apply NoDup_zsort.
+  unfold live_node_ids. pose proof (b_nd_nodes s B) as ND. revert ND. generalize (nodes s). clear.
+  induction l as [|[k r] rest IH]; cbn [map filter fst snd]; intros ND; [constructor|].
+  inversion ND as [|? ? Hn ND']. subst. destruct (nrec_vis r (epoch s)); cbn [map fst]; [constructor|]; try (apply IH; exact ND').
+  intros H. apply Hn. apply in_map_iff in H. destruct H as [[k' r'] [H1 H2]]. cbn [fst] in H1. subst k'.
+  apply filter_In in H2. destruct H2 as [H2 _]. apply in_map_iff. exists (k, r'). auto.
+Qed.
+
+(** the index itself agrees with the scan for values without float NaN / zero ... *)
+Lemma index_entry_ok s key q ix : BaseInv s -> PropsLive s -> IdxInv s -> zget (pidx s) key = Some ix ->
+  has_float_special q = false ->
+  NoDup (match vget ix q with Some ns => ns | None => [] end) /\
+  (forall n, In n (match vget ix q with Some ns => ns | None => [] end) <-> In n (scan_by_prop s key q)).
+Proof.
+  intros B PL IX E Hq. destruct (IX key ix E) as [I1 I2]. split.
+  - destruct (vget ix q) as [ns|] eqn:V; [exact (I2 q ns V)|constructor].
+  - intros n. rewrite (In_scan_by_prop s key q n B).
+    assert (In n (match vget ix q with Some ns => ns | None => [] end) <-> in_vix ix q n) as ->.
+    { unfold in_vix. destruct (vget ix q) as [ns|]; split.
+      - intros H. exists ns. auto.
+      - intros [ns' [H1 H2]]. inversion H1. subst. exact H2.
+      - intros [].
+      - intros [ns' [H1 _]]. discriminate. }
+    rewrite I1. split.
+    + intros H. split; [apply (PL n key q H)|]. exists q. split; [exact H|]. rewrite (ieee_eq_plain q Hq). apply value_eqb_refl.
+    + intros [_ [x [H1 H2]]]. rewrite (ieee_eq_plain q Hq) in H2. apply value_eqb_eq in H2. subst. exact H1.
+Qed.
+
+(** ... and find_nodes_by_property (which scans for the other values, fix c82f983) for every value *)
+Lemma index_ok_inv s key q : BaseInv s -> PropsLive s -> IdxInv s ->
   NoDup (find_by_prop s key q) /\ (forall n, In n (find_by_prop s key q) <-> In n (scan_by_prop s key q)).
 Proof.
-  intros B PL IX Hq. unfold find_by_prop. destruct (zget (pidx s) key) as [ix|] eqn:E.
-  - destruct (IX key ix E) as [I1 I2]. split.
-    + destruct (vget ix q) as [ns|] eqn:V; [exact (I2 q ns V)|constructor].
-    + intros n. rewrite (In_scan_by_prop s key q n B).
-      assert (In n (match vget ix q with Some ns => ns | None => [] end) <-> in_vix ix q n) as ->.
-      { unfold in_vix. destruct (vget ix q) as [ns|]; split.
-        - intros H. exists ns. auto.
-        - intros [ns' [H1 H2]]. inversion H1. subst. exact H2.
-        - intros [].
-        - intros [ns' [H1 _]]. discriminate. }
-      rewrite I1. split.
-      * intros H. split; [apply (PL n key q H)|]. exists q. split; [exact H|]. rewrite (ieee_eq_plain q Hq). apply value_eqb_refl.
-      * intros [_ [x [H1 H2]]]. rewrite (ieee_eq_plain q Hq) in H2. apply value_eqb_eq in H2. subst. exact H1.
-  - split; [|intros n; reflexivity]. unfold scan_by_prop. apply NoDup_filter. unfold node_ids. apply NoDup_zsort.
-    unfold live_node_ids. pose proof (b_nd_nodes s B) as ND. revert ND. generalize (nodes s). clear.
-    induction l as [|[k r] rest IH]; cbn [map filter fst snd]; intros ND; [constructor|].
-    inversion ND as [|? ? Hn ND']. subst. destruct (nrec_vis r (epoch s)); cbn [map fst]; [constructor|]; try (apply IH; exact ND').
-    intros H. apply Hn. apply in_map_iff in H. destruct H as [[k' r'] [H1 H2]]. cbn [fst] in H1. subst k'.
-    apply filter_In in H2. destruct H2 as [H2 _]. apply in_map_iff. exists (k, r'). auto.
+  intros B PL IX. unfold find_by_prop. destruct (zget (pidx s) key) as [ix|] eqn:E.
+  - destruct (has_float_special q) eqn:Hq.
+    + split; [apply NoDup_scan_by_prop; exact B|intros n; reflexivity].
+    + apply index_entry_ok; assumption.
+  - split; [apply NoDup_scan_by_prop; exact B|intros n; reflexivity].
+Qed.
+
+(** the lookup before c82f983 (the index whenever there is one): the same for values without float NaN / zero *)
+Lemma index_pre_ok_inv s key q : BaseInv s -> PropsLive s -> IdxInv s -> has_float_special q = false ->
+  forall n, In n (find_by_prop_pre s key q) <-> In n (scan_by_prop s key q).
+Proof.
+  intros B PL IX Hq. unfold find_by_prop_pre. destruct (zget (pidx s) key) as [ix|] eqn:E; [|intros n; reflexivity].
+  apply index_entry_ok; assumption.
 Qed.
